@@ -12,7 +12,7 @@ from __future__ import annotations
 import ast
 from typing import Callable, Dict, List, Optional, Tuple
 
-ENGINE = ("base_interpreter", "interpreter", "sync_interpreter", "helpers")
+ENGINE = ("base_interpreter", "interpreter", "sync_interpreter", "helpers", "logic_loader", "models")
 
 
 def _assigned(fn, pred: Callable[[ast.AST], bool]) -> List[str]:
@@ -23,6 +23,8 @@ def _assigned(fn, pred: Callable[[ast.AST], bool]) -> List[str]:
             tg, val = x.targets[0].id, x.value
         elif isinstance(x, ast.AnnAssign) and isinstance(x.target, ast.Name) and x.value is not None:
             tg, val = x.target.id, x.value
+        elif isinstance(x, ast.Assign) and len(x.targets) == 1 and isinstance(x.targets[0], ast.Tuple) and x.targets[0].elts and isinstance(x.targets[0].elts[0], ast.Name):
+            tg, val = x.targets[0].elts[0].id, x.value          # probe, recorded = _build_probe(...): the first result
         if tg is not None and pred(val) and tg not in out:
             out.append(tg)
     return out
@@ -80,6 +82,10 @@ TABLE: List[Tuple[str, str, Callable, Tuple[str, ...]]] = [
      ("actor", "child")),
     ("*", "actor", lambda fn: _assigned(fn, lambda v: _is_call_of(v, "self._resolve_actor_target")), ("actor",)),
     ("*", "registry", lambda fn: _assigned(fn, lambda v: _is_call_of(v, "self._system_registry")), ("registry",)),
+    ("*", "probe", lambda fn: _assigned(fn, lambda v: _is_call_of(v, "_Probe", "_build_probe")), ("probe",)),
+    ("_extract_logic_from_node", "invoke_def", lambda fn: _loop_target(fn, lambda it: _u(it).endswith(".invoke")), ("invoke_def",)),
+    ("_parse_initial", "candidates", lambda fn: _assigned(fn, lambda v: isinstance(v, ast.ListComp) and "states" in _u(v)), ("candidates",)),
+    ("_parse_after", "delay", lambda fn: _loop_target(fn, lambda it: _u(it).endswith(".items()") and "after" in _u(it), 0), ("delay",)),
     ("_spawn_actor", "child", lambda fn: _assigned(fn, _constructs_interpreter), ("child", "child_interpreter")),
     ("_spawn_and_manage_actor", "child_interpreter", lambda fn: _assigned(fn, _constructs_interpreter), ("child", "child_interpreter")),
     ("_spawn_actor", "actor_id", lambda fn: _assigned(fn, lambda v: "uuid" in _u(v)), ("actor_id",)),
